@@ -97,6 +97,13 @@ def contract (h : List Ev) : Bool :=
    | r :: t => t.all fun x => corrRequired x.flowType x.corr == corrRequired r.flowType r.corr)
 
 
+/-- the model's aggregated record after a history of one flow (the first event creates the flow) -/
+def modelAfter : List Ev → Option AggRec
+  | [] => none
+  | .reset :: _ => none
+  | .record r :: t =>
+    some (t.foldl (fun a e => match e with | .record r => update r a | .reset => resetStats a) (create r))
+
 /-- what a dumped / exported aggregated record shows of the fields C05 talks about -/
 structure Shown where
   end_ : Nat
